@@ -20,6 +20,35 @@ theorem rat_snap_self (s : Rat) (hs : s ≠ 0) (k : Int) : snap s ((k : Rat) * s
   simp only [snap, gridIndex, ofGrid, FloatOps.round, FloatOps.div, FloatOps.ofInt, FloatOps.mul]
   rw [Rat.mul_div_cancel hs, rat_round_intCast]
 
+/-- over the exact carrier the monitor's decidable grid test finds every grid value -/
+theorem rat_onGridNear (s x : Rat) (h : OnGrid s x) : OnGridNear s x := by
+  obtain ⟨k, hk⟩ := h
+  have hx : x = (k : Rat) * s := by
+    simp only [IsSome, ofGrid, FloatOps.ofInt, FloatOps.mul, FloatOps.same, decide_eq_true_eq] at hk
+    exact hk.symm
+  subst hx
+  by_cases hs : s = 0
+  · subst hs
+    have : gridIndex (0 : Rat) ((k : Rat) * 0) = some 0 := by
+      simp only [gridIndex, FloatOps.round, FloatOps.div, Rat.mul_zero]
+      have : RatCarrier.round ((0 : Rat) / 0) = 0 := by decide +kernel
+      rw [this]
+    unfold OnGridNear
+    rw [this]
+    right; left
+    simp [IsSome, ofGrid, FloatOps.ofInt, FloatOps.mul, FloatOps.same, Rat.mul_zero]
+  · have hsn := rat_snap_self s hs k
+    unfold snap at hsn
+    unfold OnGridNear
+    cases hg : gridIndex s ((k : Rat) * s) with
+    | none => rw [hg] at hsn; cases hsn
+    | some k' =>
+      rw [hg] at hsn
+      simp only at hsn ⊢
+      right; left
+      rw [hsn]
+      simp [IsSome, FloatOps.same]
+
 /-- `ScaledInteger(0.1, 0, 10)` over the exact carrier -/
 theorem rat_gridExact_example : GridExactScaled (1/10 : Rat) 0 10 := by
   have h0 : snap (1/10 : Rat) 0 = some 0 := by decide +kernel
